@@ -73,30 +73,31 @@ def build_model(ctx):
     ctx.model = ctx.build_ocaml("c19_driver", [COQ / "c19_model.mli", COQ / "c19_model.ml", VERIF / "ocaml" / "c19_driver.ml"])
 
 
-def run_model(ctx, lines, jobs=12):
-    """run the extracted model on many cases, in parallel processes; returns outputs in order"""
+def run_model(ctx, lines, jobs=14):
+    """run the extracted model on many cases, one process per case, longest first; returns outputs in order"""
     if not getattr(ctx, "model", None) or not lines:
         return [None] * len(lines)
-    order = sorted(range(len(lines)), key=lambda i: -len(lines[i]))
-    buckets = [[] for _ in range(min(jobs, len(lines)))]
-    for j, i in enumerate(order):
-        buckets[j % len(buckets)].append(i)
 
-    def work(idx):
-        text = "".join(lines[i] + "\n" for i in idx)
-        rc, out = ctx.run_exe(ctx.model, input_text=text, timeout=3000)
+    def cost(l):
+        t = l.split(" ", 4)
+        if t[0] in ("fir", "firspec"):
+            return len(l) * (150 if t[1] in ("rxd", "rxf", "mod", "mtr") else 10)
+        return 400000 if t[0] in ("sdft", "nsdft", "iir", "iirspec") else len(l)
+
+    def work(i):
+        rc, out = ctx.run_exe(ctx.model, input_text=lines[i] + "\n", timeout=3000)
         res = out.strip("\n").split("\n") if out.strip() else []
-        if rc != 0 or len(res) != len(idx):
-            return [(i, None) for i in idx], f"rc={rc} lines={len(res)}/{len(idx)} tail={out[-200:]!r}"
-        return list(zip(idx, res)), None
+        if rc != 0 or len(res) != 1:
+            return i, None, f"rc={rc} case={lines[i][:80]!r} tail={out[-200:]!r}"
+        return i, res[0], None
 
     outs = [None] * len(lines)
-    with ThreadPoolExecutor(max_workers=len(buckets)) as ex:
-        for pairs, err in ex.map(work, buckets):
+    order = sorted(range(len(lines)), key=lambda i: -cost(lines[i]))
+    with ThreadPoolExecutor(max_workers=jobs) as ex:
+        for i, r, err in ex.map(work, order):
             if err:
                 ctx.tie_broken("c19-model-run", err)
-            for i, r in pairs:
-                outs[i] = r
+            outs[i] = r
     return outs
 
 
@@ -188,12 +189,13 @@ def gen_cases(ctx, dsp):
     cfgs = [("s48", 48, 16, True), ("s24", 24, 8, True), ("s8", 8, 4, True), ("s5", 5, 5, True), (dcd, dsp["dcd_N"], 20, False), ("n16", 16, 4, False)]
     for T in "fd":
         emit = (60 if T == "d" else 130) if thorough else (36 if T == "d" else 72)
+        budget = 3600 if thorough else 2000
         for cfg, N, period, damped in cfgs:
             gap = gaps[T] if damped else 0.0
             for kind, n, amp, q in (("impulse", 3 * N + 10, 1, 0), ("step", 4 * N, 1000, 0), ("tone", 6 * N, 127, 7), ("random", 5 * N, 127, 7)):
-                cases.append(Case("sdft", T, cfg, q, n, min(emit, n), gen_input(r, kind, n, amp, period), kind, extra={"gap": gap, "N": N}))
-            cases.append(Case("sdft", T, cfg, 15, long_n, emit, gen_input(r, "random", long_n, 32767), "random-long", extra={"gap": gap, "N": N}))
-            cases.append(Case("sdft", T, cfg, 7, long_n // 10, emit, gen_input(r, "tone", long_n // 10, 127, period), "tone-long", extra={"gap": gap, "N": N}))
+                cases.append(Case("sdft", T, cfg, q, n, min(emit, n), gen_input(r, kind, n, amp, period), kind, extra={"gap": gap, "N": N, "budget": budget}))
+            cases.append(Case("sdft", T, cfg, 15, long_n, emit, gen_input(r, "random", long_n, 32767), "random-long", extra={"gap": gap, "N": N, "budget": budget}))
+            cases.append(Case("sdft", T, cfg, 7, long_n // 10, emit, gen_input(r, "tone", long_n // 10, 127, period), "tone-long", extra={"gap": gap, "N": N, "budget": budget}))
     return cases
 
 
@@ -235,9 +237,13 @@ def model_line(c, h):
         re_, im_ = (fx(v) for v in cc.split(":"))
         coeffs.append(dyadic(re_) + dyadic(im_))
     N = c.extra["N"]
+    # the exact values grow by one coefficient mantissa per step: bound the total size of the numbers
+    bits = max(max(k[1], k[3]) for k in coeffs) or 1
+    emit = max(min(c.emit, c.extra["budget"] // bits), min(c.emit, 12))
+    pre = " ".join(map(str, c.xs[:emit]))
     if h.startswith("sdft"):     # SlidingDFT: damping = the regenerated FloatType(0.999999999999999) for this T
-        return f"sdft {N} " + " ".join(map(str, coeffs[0])) + f" {c.T} {c.q} {c.emit} {pre}", 0
-    return f"nsdft {N} {len(coeffs)} " + " ".join(" ".join(map(str, k)) for k in coeffs) + f" {c.q} {c.emit} {pre}", 0
+        return f"sdft {N} " + " ".join(map(str, coeffs[0])) + f" {c.T} {c.q} {emit} {pre}", 0
+    return f"nsdft {N} {len(coeffs)} " + " ".join(" ".join(map(str, k)) for k in coeffs) + f" {c.q} {emit} {pre}", 0
 
 
 # --------------------------------------------------------------------------------------------- tables
@@ -443,7 +449,7 @@ def compare_case(ctx, c, h, m, qt):
         maxx = max(abs(x) for x in c.xs) * scale
         my = [[tuple(hq(p) for p in b.split(":")) for b in v.split(";")] for v in mf["y"].split(",")]
         iy = [[tuple(fx(p) for p in b.split(":")) for b in v.split(";")] for v in f["y"].split(",")]
-        if len(my) != len(iy):
+        if not my or len(my) > len(iy):
             ctx.tie_broken("sdft-impl-vs-model", f"{c.key()}: {len(iy)} outputs vs {len(my)}")
             return
         for n in range(len(my)):
@@ -541,6 +547,8 @@ def coefficient_check(ctx, c, h):
 
 
 def run(ctx):
+    import time
+    t0 = time.time()
     exe = ctx.build_cpp("c19_harness", "c19.cpp", extra=(f"-I{ctx.repo}/apps",), libs=("-lcodec2", "-lboost_program_options"))
     if ctx.replay_in:
         return replay(ctx, exe)
@@ -549,7 +557,9 @@ def run(ctx):
     except (AnchorError, AttributeError) as e:
         ctx.tie_broken("dsp-translator", str(e))
         dsp = {"gap_d": 2.0 ** -50, "gap_f": 0.0, "dcd_sr": 48000, "dcd_N": 120, "dcd_freqs": [2400, 3600]}
+    ctx.log(f"harness built at +{time.time() - t0:.1f}s")
     table_checks(ctx, exe)
+    ctx.log(f"table checks done at +{time.time() - t0:.1f}s")
     cases = gen_cases(ctx, dsp)
     hl = [harness_line(c) for c in cases]
     (ctx.workdir / "cases.txt").write_text("\n".join(hl) + "\n")
@@ -569,6 +579,7 @@ def run(ctx):
                     ctx.tie_broken("c19-harness-run", f"harness exited {rc} after {len(res)}/{len(part)} cases: {out[-300:]!r}")
                 for i, r_ in zip(part, res):
                     houts[i] = r_
+    ctx.log(f"{len(cases)} cases through the harness at +{time.time() - t0:.1f}s")
     ml, qts = [], []
     for c, h in zip(cases, houts):
         line, qt = model_line(c, h or "")
@@ -577,6 +588,7 @@ def run(ctx):
     (ctx.workdir / "model_cases.txt").write_text("\n".join(x or "-" for x in ml) + "\n")
     have = [i for i, x in enumerate(ml) if x]
     mres = run_model(ctx, [ml[i] for i in have])
+    ctx.log(f"exact model done at +{time.time() - t0:.1f}s")
     mouts = [None] * len(cases)
     for i, r_ in zip(have, mres):
         mouts[i] = r_
@@ -594,7 +606,9 @@ def run(ctx):
         compare_case(ctx, c, h, m, qt)
         if c.prim == "sdft":
             coefficient_check(ctx, c, h)
+    ctx.log(f"comparison done at +{time.time() - t0:.1f}s")
     spec_checks(ctx, exe, cases, houts)
+    ctx.log(f"spec checks done at +{time.time() - t0:.1f}s")
     # a few written-out cases
     for c, h in list(zip(cases, houts))[:2] + [(c, h) for c, h in zip(cases, houts) if c.kind == "random-long"][:2]:
         if h:
